@@ -31,6 +31,7 @@ Inductive err :=
 | EInactive   (* pool not active *)
 | ERoute      (* empty / duplicate / inconsistent routes *)
 | EPanic      (* a Go panic (recovered by the route function or by baseapp) *)
+| ESkim       (* TakerFeeSkim: the taker-fee share agreements of the route's denoms add up to more than 100 % *)
 | ETable.     (* only produced by the table-driven pool of C05/Corr.v: call not in the table *)
 
 Inductive result (A : Type) := Ok (a : A) | Err (e : err).
@@ -116,12 +117,13 @@ Record state := mkState {
   pools : list (Z * pool_state P);     (* pool id -> pool record (poolmanager routing table + the module's store) *)
   bal : bank;
   taker_fee : Z -> Z -> Z;              (* GetTradingPairTakerFee: ordered pair -> fee (default when unset) *)
-  whitelisted : acct -> bool }.         (* reducedFeeWhitelist *)
+  whitelisted : acct -> bool;           (* reducedFeeWhitelist *)
+  skim : Z -> option Z }.               (* taker-fee share agreements: denom -> SkimPercent (18-decimal mantissa) *)
 
 Definition set_pool (s : state) (id : Z) (p : pool_state P) : state :=
-  mkState (put_pool (pools s) id p) (bal s) (taker_fee s) (whitelisted s).
+  mkState (put_pool (pools s) id p) (bal s) (taker_fee s) (whitelisted s) (skim s).
 Definition set_bal (s : state) (b : bank) : state :=
-  mkState (pools s) b (taker_fee s) (whitelisted s).
+  mkState (pools s) b (taker_fee s) (whitelisted s) (skim s).
 
 (* chargeTakerFee *)
 Definition charge_taker_fee (s : state) (sender : acct) (dIn amt dOut : Z) (exact_in : bool)
@@ -210,7 +212,36 @@ Fixpoint route_in_loop (s : state) (sender : acct) (route : list (Z * Z)) (dIn a
       end
     end
   end.
-Definition route_exact_in := route_in_loop.    (* Validate() = non-empty route, which the loop's [] case rejects *)
+(* TakerFeeSkim (taker_fee.go), the part that can make a swap fail: the distinct denoms of the route that have a
+   taker-fee share agreement must have skim percentages adding up to a value in [0, 1].  (What it does otherwise -
+   bumping the per-agreement accumulators of the fees charged - moves no funds and is not modelled; registered
+   alloyed-asset pools are assumed absent.) *)
+Fixpoint dedup (l : list Z) : list Z :=
+  match l with
+  | [] => []
+  | x :: r => if existsb (Z.eqb x) r then dedup r else x :: dedup r
+  end.
+Fixpoint pct_sum (f : Z -> option Z) (ds : list Z) : option Z :=       (* None = no agreement among ds *)
+  match ds with
+  | [] => None
+  | d :: r => match f d, pct_sum f r with
+              | Some p, Some q => Some (p + q)
+              | Some p, None => Some p
+              | None, q => q
+              end
+  end.
+Definition skim_ok (s : state) (denoms : list Z) : bool :=
+  match pct_sum (skim s) (dedup denoms) with
+  | None => true
+  | Some p => (0 <=? p) && (p <=? P18)
+  end.
+
+(* RouteExactAmountIn: Validate() = non-empty route (the loop's [] case rejects it); the hop loop; TakerFeeSkim *)
+Definition route_exact_in (s : state) (sender : acct) (route : list (Z * Z)) (dIn amt minOut : Z) : result (state * Z) :=
+  match route_in_loop s sender route dIn amt minOut with
+  | Err e => Err e
+  | Ok (s', out) => if skim_ok s' (dIn :: map snd route) then Ok (s', out) else Err ESkim
+  end.
 
 (* SplitRouteExactAmountIn *)
 Fixpoint list_eqb {A} (eqb : A -> A -> bool) (a b : list A) : bool :=
@@ -369,7 +400,11 @@ Definition route_exact_out (s : state) (sender : acct) (route : list (Z * Z)) (m
     | (s1, Ok ins) =>
       match ins with
       | [] => Ok (s1, 0)                                       (* unreachable: len(ins) = len(route) *)
-      | _ :: t => route_out_loop true s1 sender route (maxIn :: t) dOutF amtF
+      | _ :: t =>
+        match route_out_loop true s1 sender route (maxIn :: t) dOutF amtF with
+        | Err e => Err e
+        | Ok (s', tin) => if skim_ok s' (dOutF :: map snd route) then Ok (s', tin) else Err ESkim
+        end
       end
     end
   end.
@@ -436,6 +471,7 @@ Arguments pools {P}.
 Arguments bal {P}.
 Arguments taker_fee {P}.
 Arguments whitelisted {P}.
+Arguments skim {P}.
 
 (* The two laws of the pool interface (Section hypotheses of C05/Proofs.v; discharged for the concrete pool of
    C05/Instance.v, measured on the real pools by the correspondence run). *)
